@@ -338,8 +338,12 @@ func Check(p Property, o CheckOpts) int {
 		"violations":  unlisted,
 	}
 	js, _ := json.MarshalIndent(ev, "", " ")
-	os.MkdirAll(filepath.Join(o.VerifDir, "evidence"), 0o755)
-	if err := os.WriteFile(filepath.Join(o.VerifDir, "evidence", id+".json"), js, 0o644); err != nil {
+	evDir := filepath.Join(o.VerifDir, "evidence")
+	if d := os.Getenv("VERIF_EVIDENCE_DIR"); d != "" {
+		evDir = d // runs against a scratch tree (seeded changes) keep the real evidence intact
+	}
+	os.MkdirAll(evDir, 0o755)
+	if err := os.WriteFile(filepath.Join(evDir, id+".json"), js, 0o644); err != nil {
 		fmt.Fprintln(os.Stderr, "infra: evidence:", err)
 		return 2
 	}
